@@ -12,11 +12,11 @@ go test -tags stringlabels -count=1 $pkgs 2>&1 | grep -v "no test files" | tail 
 echo "== demo WITH change (must fail)"
 bash -c "$demo" > /tmp/seeddemo.with 2>&1; a=$?
 echo "exit=$a"; tail -5 /tmp/seeddemo.with
-git stash -q -- $files
+git diff -- $files > /tmp/seedconfirm.$$.diff; git apply -R /tmp/seedconfirm.$$.diff   # not git stash: the stash is shared between worktrees
 echo "== demo WITHOUT change (must pass)"
 bash -c "$demo" > /tmp/seeddemo.without 2>&1; b=$?
 echo "exit=$b"; tail -5 /tmp/seeddemo.without
-git stash pop -q
+git apply /tmp/seedconfirm.$$.diff; rm -f /tmp/seedconfirm.$$.diff
 git status --short | grep -v SEED | head
 if [ "$a" != 0 ] && [ "$b" = 0 ]; then
   mkdir -p "/verif/seeded/$name"
